@@ -173,3 +173,23 @@ func SignEach(ms []*Member, msg []byte) []hotstuff.QuorumSignature {
 func GenesisQC() hotstuff.QuorumCert {
 	return hotstuff.NewQuorumCert(nil, 0, hotstuff.GetGenesis().Hash())
 }
+
+// NewForeignMember returns a stand-alone replica with a fresh key that is configured in no cluster: whatever it
+// signs is "garbage" to everybody else, but well-formed for the scheme.
+func NewForeignMember(scheme string) *Member {
+	m := &Member{ID: 1}
+	m.Cfg = core.NewRuntimeConfig(1, genKey(scheme), core.WithSyncVerification())
+	m.Log = Logger("foreign")
+	m.EL = eventloop.New(m.Log, 16)
+	m.Sender = testutil.NewMockSender(1)
+	base, err := crypto.New(m.Cfg, scheme)
+	if err != nil {
+		panic(err)
+	}
+	m.Base = base
+	m.BC = blockchain.New(m.EL, m.Log, m.Sender)
+	m.Sender.AddBlockchain(m.BC)
+	m.Auth = cert.NewAuthority(m.Cfg, m.BC, base)
+	m.Cfg.AddReplica(&hotstuff.ReplicaInfo{ID: 1, PubKey: m.Cfg.PrivateKey().Public(), Metadata: m.Cfg.ConnectionMetadata()})
+	return m
+}
